@@ -404,6 +404,7 @@ def kind_of(e) -> str:
     from classy_blocks.construct.flat.sketch import Sketch
     from classy_blocks.construct.flat.sketches.annulus import Annulus
     from classy_blocks.construct.flat.sketches.disk import DiskBase, WrappedDisk
+    from classy_blocks.construct.flat.sketches.spline_round import SplineRound
     from classy_blocks.construct.shapes.sphere import EighthSphere
     from classy_blocks.construct.stack import Stack
 
@@ -438,6 +439,8 @@ def kind_of(e) -> str:
             return "firstpt"
         if type(e) in (cb.MappedSketch, Annulus):
             return "sketchavg"
+        if isinstance(e, SplineRound) and _defining_class(e, "center") == "SplineRound" and _defining_class(e, "parts") == "Sketch":
+            return "facept3"
         return "other"
     if isinstance(e, EighthSphere):
         return "sphere"
